@@ -36,11 +36,12 @@ Theorem C17_pump_flushes_before_wait :
 Proof. exact pump_flushes_before_wait. Qed.
 Print Assumptions C17_pump_flushes_before_wait.
 
-(* 4. the transport's end of stream reaches the SSL object: write_eof() on the incoming BIO *)
+(* 4. standard_compatible: the transport's end of stream reaches the SSL object (write_eof() on the incoming BIO),
+      which judges whether the end was legitimate.  (Not standard_compatible: see 13.) *)
 Theorem C17_pump_transport_eof_reaches_bio :
   forall (O : Type) (ocall : O -> func -> list nat -> bool -> option (O * sslev))
-         fuel o0 sc rx tail tx ops,
-    let s := snd (fst (run O ocall fuel (o0, init_pst sc rx tail tx) ops)) in
+         fuel o0 rx tail tx ops,
+    let s := snd (fst (run O ocall fuel (o0, init_pst true rx tail tx) ops)) in
     forall p, In (CRecv p RxEof) (trace s) -> bin_eof s = true.
 Proof. exact pump_transport_eof_reaches_bio. Qed.
 Print Assumptions C17_pump_transport_eof_reaches_bio.
@@ -48,7 +49,8 @@ Print Assumptions C17_pump_transport_eof_reaches_bio.
 (* 5. outcome of receive(n) as a function of the SSL object's LAST answer e to read(n):
       unexpected EOF |-> BrokenResourceError if standard_compatible, EndOfStream otherwise;
       EndOfStream is reported only for an empty read (close_notify, by the contract) or, when not
-      standard_compatible, for an unexpected EOF; hence never for an unexpected EOF when standard_compatible;
+      standard_compatible, for an unexpected EOF reported by the SSL object or for the transport's own end while the
+      SSL object wants to read; hence never for a truncated stream when standard_compatible;
       a value is returned only if read() returned that (non-empty) value *)
 Theorem C17_pump_eof_mapping :
   forall (O : Type) (ocall : O -> func -> list nat -> bool -> option (O * sslev))
@@ -56,7 +58,7 @@ Theorem C17_pump_eof_mapping :
     step O ocall fuel (o, s) (OReceive n) = ((o', s'), r) -> r <> RStuck -> r <> RValueError ->
     exists pre e, olog s' = pre ++ [(FRead n, e)] /\ answered O ocall (FRead n) e /\
       (unexpected_eof e -> r = if std s then RBroken else REndOfStream) /\
-      (r = REndOfStream -> (ek e = KOk /\ eval e = []) \/ (std s = false /\ unexpected_eof e)) /\
+      (r = REndOfStream -> (ek e = KOk /\ eval e = []) \/ (std s = false /\ (unexpected_eof e \/ ek e = KWantRead))) /\
       (std s = true -> r = REndOfStream -> ek e = KOk /\ eval e = []) /\
       (forall v, r = RVal v -> ek e = KOk /\ eval e = v /\ v <> []).
 Proof. exact pump_eof_mapping. Qed.
@@ -88,7 +90,10 @@ Print Assumptions C17_toy_receive_le_max_bytes.
       send and receive operations (any receive sizes).  Then: no call blocks; the received plaintext is a prefix
       of the peer's plaintext; an EndOfStream under standard_compatible (or with complete delivery) means
       complete delivery AND all plaintext received; BrokenResourceError only for a truncated stream under
-      standard_compatible; the endpoint's own wire output is handshake + records of the accepted items. *)
+      standard_compatible; the endpoint's own wire output is handshake + records of the accepted items;
+      an EndOfStream with at most the close_notify (2 bytes) missing means all plaintext received; when not
+      standard_compatible (or with complete delivery) and the peer's hello arrived, EVERY send is accepted -
+      also after a ragged end was reported - and nothing is left unsent. *)
 Theorem C17_tls_transparent_under_ssl_contract :
   forall m sc pitems chunks D ops fuel,
     forallb sendrecv ops = true ->
@@ -102,7 +107,10 @@ Theorem C17_tls_transparent_under_ssl_contract :
     (In REndOfStream rs -> sc = true \/ D = 0 -> D = 0 /\ received (OHandshake :: ops) rs = concat pitems) /\
     (In RBroken rs -> 0 < D /\ sc = true) /\
     produced s' = hello_rec ++ concat (map (records m) (accepted (OHandshake :: ops) rs)) /\
-    sent_of (trace s') ++ bout s' = produced s'.
+    sent_of (trace s') ++ bout s' = produced s' /\
+    (In REndOfStream rs -> D <= 2 -> received (OHandshake :: ops) rs = concat pitems) /\
+    (sc = false \/ D = 0 -> 2 <= length (concat chunks) ->
+     accepted (OHandshake :: ops) rs = sends_of ops /\ bout s' = []).
 Proof. exact tls_endpoint_transparent. Qed.
 Print Assumptions C17_tls_transparent_under_ssl_contract.
 
@@ -117,7 +125,8 @@ Theorem C17_tls_receive_all :
     let rs := snd (trun fuel (init_tobj m, ep0 sc chunks) ops) in
     (D = 0 -> received ops rs = concat pitems /\ In REndOfStream rs /\ ~ In RBroken rs) /\
     (0 < D -> sc = true -> In RBroken rs /\ ~ In REndOfStream rs) /\
-    (0 < D -> sc = false -> In REndOfStream rs /\ ~ In RBroken rs).
+    (0 < D -> sc = false -> In REndOfStream rs /\ ~ In RBroken rs) /\
+    (D <= 2 -> sc = false -> received ops rs = concat pitems).
 Proof. exact tls_receive_all. Qed.
 Print Assumptions C17_tls_receive_all.
 
@@ -145,3 +154,75 @@ Theorem C17_tls_pair_transparent :
     prefix (received (OHandshake :: opsB) (snd outB)) (concat (accepted (OHandshake :: opsA) (snd outA))).
 Proof. exact tls_pair_transparent. Qed.
 Print Assumptions C17_tls_pair_transparent.
+
+(* 12. fix c5df3e8, for EVERY SSL-object oracle and transport script: after a receive() that ended with the
+       transport's EndOfStream under standard_compatible=False (the SSL object's last answer was "want read"),
+       neither BIO is at EOF, nothing is pending, the transport call that ended it was the receive, and a following
+       send() IS the SSL object's write on the untouched BIOs, its ciphertext flushed to the transport *)
+Theorem C17_pump_ragged_eof_keeps_send_alive :
+  forall (O : Type) (ocall : O -> func -> list nat -> bool -> option (O * sslev))
+         fuel o s n o1 s1 pre e,
+    std s = false ->
+    step O ocall fuel (o, s) (OReceive n) = ((o1, s1), REndOfStream) ->
+    olog s1 = pre ++ [(FRead n, e)] -> ek e = KWantRead ->
+    bin_eof s1 = bin_eof s /\ bout_eof s1 = bout_eof s /\ bout s1 = [] /\
+    (exists p tr, trace s1 = tr ++ [CRecv p RxEof]) /\
+    forall item o2 e2 fuel2,
+      ocall o1 (FWrite item) (bin s1) (bin_eof s) = Some (o2, e2) -> ek e2 = KOk ->
+      hd TxOk (txs s1) = TxOk ->
+      exists s2, step O ocall (S fuel2) (o1, s1) (OSend item) = ((o2, s2), RVal []) /\
+        sent_of (trace s2) = sent_of (trace s1) ++ eemit e2 /\ bout s2 = [] /\
+        produced s2 = produced s1 ++ eemit e2 /\
+        bin s2 = skipn (econs e2) (bin s1) /\ bin_eof s2 = bin_eof s /\ bout_eof s2 = bout_eof s.
+Proof. exact pump_ragged_eof_keeps_send_alive. Qed.
+Print Assumptions C17_pump_ragged_eof_keeps_send_alive.
+
+(* 13. closed end-to-end statement (toy record layer, not standard_compatible): the client sends `req` and half-closes
+       its transport without close_notify; the server reads to the end (EndOfStream, never BrokenResourceError), THEN
+       sends `replies`: all accepted, all on the wire, and the client - fed any chunking of them - receives them
+       byte for byte *)
+Theorem C17_tls_half_close_reply_delivered :
+  forall m req replies chunksS chunksC n k kc fuel,
+    concat chunksS = wire m req false ->
+    length (concat req) < k -> length (concat replies) < kc ->
+    length chunksS + 3 <= fuel -> length chunksC + 3 <= fuel ->
+    let opsS := OHandshake :: repeat (OReceive (S n)) k ++ map OSend replies in
+    let outS := trun fuel (init_tobj m, ep0 false chunksS) opsS in
+    received opsS (snd outS) = concat req /\ In REndOfStream (snd outS) /\ ~ In RBroken (snd outS) /\
+    accepted opsS (snd outS) = replies /\
+    sent_of (trace (snd (fst outS))) = wire m replies false /\
+    (concat chunksC = sent_of (trace (snd (fst outS))) ->
+     let opsC := OHandshake :: repeat (OReceive (S n)) kc in
+     received opsC (snd (trun fuel (init_tobj m, ep0 false chunksC) opsC)) = concat replies).
+Proof. exact tls_half_close_reply_delivered. Qed.
+Print Assumptions C17_tls_half_close_reply_delivered.
+
+(* 14. regression witnesses for the tree before c5df3e8 (pump_pinned hands the transport's end to the SSL object also
+       when not standard_compatible): 13 is false of it - same toy object, same transport, same operations: the
+       reply is refused and never reaches the wire *)
+Theorem C17_tls_half_close_reply_delivered_refuted_pinned :
+  exists m req replies chunksS n k fuel,
+    concat chunksS = wire m req false /\ length (concat req) < k /\ length chunksS + 3 <= fuel /\
+    let opsS := OHandshake :: repeat (OReceive (S n)) k ++ map OSend replies in
+    let outS := trun_pinned fuel (init_tobj m, ep0 false chunksS) opsS in
+    received opsS (snd outS) = concat req /\ In REndOfStream (snd outS) /\
+    accepted opsS (snd outS) = [] /\ replies <> [] /\
+    sent_of (trace (snd (fst outS))) = wire m [] false /\
+    accepted opsS (snd (trun fuel (init_tobj m, ep0 false chunksS) opsS)) = replies /\
+    sent_of (trace (snd (fst (trun fuel (init_tobj m, ep0 false chunksS) opsS)))) = wire m replies false.
+Proof. exact tls_half_close_reply_delivered_refuted_pinned. Qed.
+Print Assumptions C17_tls_half_close_reply_delivered_refuted_pinned.
+
+(* ... and with a scripted SSL object that, like OpenSSL 3, keeps reporting the unexpected EOF once it has seen it:
+   the pinned pump makes send() raise EndOfStream and write nothing, both BIOs at EOF; the fixed pump never tells
+   the SSL object, which performs the write *)
+Theorem C17_pump_ragged_eof_keeps_send_alive_refuted_pinned :
+  exists (poisoned healthy : list sslev),
+    let out := srun_pinned 5 (poisoned, init_pst false [] (Some RxEof) []) [OReceive 10; OSend [1; 2]] in
+    snd out = [REndOfStream; REndOfStream] /\ sent_of (trace (snd (fst out))) = [] /\
+    bin_eof (snd (fst out)) = true /\ bout_eof (snd (fst out)) = true /\
+    let out' := srun 5 (healthy, init_pst false [] (Some RxEof) []) [OReceive 10; OSend [1; 2]] in
+    snd out' = [REndOfStream; RVal []] /\ sent_of (trace (snd (fst out'))) = [23; 3; 3; 0; 2; 2; 3] /\
+    bin_eof (snd (fst out')) = false /\ bout_eof (snd (fst out')) = false.
+Proof. exact pump_ragged_eof_keeps_send_alive_refuted_pinned. Qed.
+Print Assumptions C17_pump_ragged_eof_keeps_send_alive_refuted_pinned.
